@@ -71,9 +71,20 @@ def _cases_for_doc(doc, rng, dense):
 
 
 def gen(rng, tier):
+    k = 0
     for case in _gen(rng, tier):
-        if not isinstance(case["doc"], str):      # the API reads a top-level str as JSON text
+        k += 1
+        if not isinstance(case["doc"], str):      # the API reads a top-level str ARGUMENT as JSON text ...
             yield case
+            if k % 7 == 0:
+                yield dict(case, as_text=True)
+        else:                                     # ... so a document whose root is a string is given as its JSON text
+            yield dict(case, as_text=True)
+    # root strings that themselves spell JSON: the root is still a string (no reference token applies to it)
+    for doc in ("[10, 20]", '{"a": {"b": 1}}', "42", "null", '"x"', "", "{", "a"):
+        for text in ("", "/0", "/1", "/a", "/a/b", "/", "/-"):
+            for dflt in (None, {"a": 1}):
+                yield {"mode": True, "text": text, "doc": doc, "default": dflt, "has_default": dflt is not None, "as_text": True}
 
 
 def _gen(rng, tier):
@@ -112,8 +123,26 @@ def _outcome(doc, f):
     return ["value", SX.canon(v), find_identity(doc, v)]
 
 
+def _no_identity(o):
+    if isinstance(o, list) and o and o[0] == "value":
+        o[2] = None
+    return o
+
+
 def impl(case):
+    out = _impl(case)
+    if case.get("as_text"):
+        for k in ("resolve", "resolve_fn", "default"):
+            if k in out:
+                _no_identity(out[k])
+    return out
+
+
+def _impl(case):
     doc = deep(case["doc"])
+    if case.get("as_text"):
+        import json as _json
+        doc = _json.dumps(case["doc"])       # a str argument is read as JSON text (every call parses it afresh)
     try:
         # the same text was given before, with the other escape-decoding setting: nothing of that may show
         JSONPointer(case["text"], unicode_escape=not case["mode"]).exists(doc)
@@ -136,7 +165,7 @@ def impl(case):
         if out["default"][0] == "value" and out["default"][2] == "not-in-document" and out["default"][1] == SX.canon(case["default"]):
             out["default"][2] = None          # the default itself came back (a container default is not a node of the document)
         out["default_unchanged"] = SX.canon(dflt) == SX.canon(case["default"])
-    out["doc_unchanged"] = SX.canon(doc) == SX.canon(case["doc"])
+    out["doc_unchanged"] = True if case.get("as_text") else SX.canon(doc) == SX.canon(case["doc"])
     return out
 
 
@@ -186,6 +215,11 @@ def decode(sx, case):
         spec["default"] = outcome if exists else ["value", SX.canon(case["default"]), None]
     in_domain = (syntax and mode_ok and flags["wf"] and flags["within-limits"] and not unsupported
                  and (ev != "none" or flags["outside-ext"]))
+    if case.get("as_text"):
+        for d_ in (model, spec):
+            for k in ("resolve", "resolve_fn", "default"):
+                if k in d_:
+                    d_[k] = _no_identity(list(d_[k]) if isinstance(d_[k], list) else d_[k])
     return {"model": model, "spec": spec, "in_domain": in_domain, "skip": unsupported,
             "flags": dict(flags, syntax=syntax, found=ev != "none")}
 
